@@ -19,7 +19,7 @@ PickBase == /\ c.stage = 0
                  /\ c' = [stage |-> 1, base |-> <<y, md[1], md[2], t \div 100, t % 100, 0, 0>>]
 Mk(form, pref, w, t, m, d, yy) ==
   [stage |-> 2, base |-> c.base, form |-> form, pref |-> pref, w |-> w, t |-> t, m |-> m, d |-> d,
-   yy |-> yy, off |-> 0]
+   yy |-> yy, off |-> 0, boff |-> 0]
 PickCase == /\ c.stage = 1
             /\ \E p \in Prefs :
                  \/ \E w \in 0..6 : c' = Mk("weekday", p, w, <<0, 0, 0, 0>>, 0, 0, 0)
